@@ -123,6 +123,7 @@ Glu_alloc(
 	if ( Glu->map_in_sup[jcol] < 0 )
 	    fsupc = jcol + Glu->map_in_sup[jcol];
 	else fsupc = jcol;
+	SLU_MT_VEV(VE_LUSUP_ALLOC, jcol, num, &Glu->map_in_sup[fsupc]);
 	*prev_next = Glu->map_in_sup[fsupc];
 	Glu->map_in_sup[fsupc] += num;
 
